@@ -958,3 +958,11 @@ F("U02", "C12", NS, _UL, "  block_size = max(size for (size, bound) in min_n.ite
 F("U03", "C12", NS, "  q = 10 * 2**block_size\n  return UniversalImpl", "  q = 10 * 2**(block_size - 1)\n  return UniversalImpl", "R-C12-LADDER", "Q = 10 * 2^(L-1)")
 T("U04", "C12", NS, _UL, "  block_size = max(size for size in min_n if n >= min_n[size])", "the same selection over the keys")
 T("U05", "C12", NS, _UL, "  admissible = [size for (size, bound) in min_n.items() if not bound > n]\n  block_size = max(admissible)", "selection through a temporary list")
+
+
+# ---------------------------------------------------------------------------------- zero-pivot row move (finding 11, fixed 9fbde9d)
+_ZP = "      if b:\n        b.insert(nrows - 1, b.pop(i))\n      a.insert(nrows - 1, a.pop(i))\n      pivots += 1"
+F("U06", "C19", LA_, _ZP, "      if b:\n        b.insert(nrows, b.pop(i))\n      a.insert(nrows, a.pop(i))\n      pivots += 1", "R-C19-LINALG", "the defect itself: the row lands behind a parked zero row")
+F("U07", "C19", LA_, _ZP, "      if b:\n        b.insert(nrows - 1, b.pop(i))\n      a.insert(nrows - 2, a.pop(i))\n      pivots += 1", "R-C19-LINALG", "a and b moved to different places")
+T("U08", "C19", LA_, _ZP, "      last = nrows - 1\n      if b:\n        b.insert(last, b.pop(i))\n      a.insert(last, a.pop(i))\n      pivots += 1", "position through a temporary")
+T("U09", "C19", LA_, _ZP, "      row = a.pop(i)\n      a.insert(nrows - 1, row)\n      if b:\n        rhs = b.pop(i)\n        b.insert(nrows - 1, rhs)\n      pivots += 1", "pop and insert split")
